@@ -77,9 +77,10 @@ def generate(rng, index, tier):
     ids = cat['ids']
     nthreads = rng.pick([1, 1, 2, 3])
     threads = []
+    tids = [300 + ti * 11 + rng.randrange(0, 5) for ti in range(nthreads)]
     for ti in range(nthreads):
-        tid = 300 + ti * 11 + rng.randrange(0, 5)
-        ctx = worlds.Ctx(ti, tid)
+        tid = tids[ti]
+        ctx = worlds.Ctx(ti, tid, tids)
         ops = []
         if ti == 0:
             form = rng.random()
